@@ -291,6 +291,22 @@ class Engine:
                 return {"rules": list(self.env.get("rules_applied") or []), "mismatch": {"kind": "diverges", "what": str(e)}}
             raise AnalysisError(f"context rules: cannot interpret {self.entry.name} on {show(term)}: {e}")
         fired = list(self.env.get("rules_applied") or [])
+
+        def weight(rs, ts):
+            # instructions a specification stands for, at the least: one per record its target stack needs (records no result depends on
+            # are dropped later) and one PUSH per constant operand of those
+            by_out = {r["outpt_sk"][0]: r for r in rs if r.get("outpt_sk")}
+            live, work = [], [v for v in ts if isinstance(v, str)]
+            while work:
+                v = work.pop()
+                r = by_out.get(v)
+                if r is None or any(r is x for x in live):
+                    continue
+                live.append(r)
+                work += [x for x in r["inpt_sk"] if isinstance(x, str)]
+            return sum(1 + sum(1 for v in r["inpt_sk"] if not isinstance(v, str)) for r in live)
+        self.last = {"discount": self.env.get("discount_op", 0) - (self.defaults.get("discount_op", 0) or 0), "weight_before": weight(before, tbefore),
+                     "weight_after": weight(recs, tstack), "after": _dump(recs, tstack) if fired else None}
         if not fired:
             return None
         if len(tstack) != len(tbefore):
